@@ -259,6 +259,7 @@ theorem select_fresh (next : Nat) (o r : Obj) (keys : List Str) (n : Nat)
   · unfold selectGrid at h
     simp only [bind, Except.bind] at h
     split at h; · cases h
+    split at h; · cases h
     cases hch : children o with
     | error e => rw [hch] at h; cases h
     | ok ds =>
